@@ -104,7 +104,9 @@ def run_impl(case):
             if os.getpid() != _MAIN_PID:
                 with open(_scratch_path(text), "w") as f:
                     f.write(_ALG[text])
-        g = G.to_rdflib_dataset(ds) if ds["named"] or ds.get("union") else G.to_rdflib_graph(ds)
+        # a plain Graph only when nothing needs a dataset (GRAPH on a plain Graph is an error by design in rdflib)
+        g = (G.to_rdflib_dataset(ds) if ds["named"] or ds.get("union") or "elt_graph" in st or "graph_var" in st
+             or "graph_const" in st or "(graph " in G.sx_query(q) else G.to_rdflib_graph(ds))
         got = G.read_rdflib_result(g.query(pq))
         impl_line = _canon(got, star)
     except Exception as e:  # the fragment never raises in the specification
